@@ -1,344 +1,16 @@
-import Fadl.Model.TypeSpec
-namespace Fadl
-set_option linter.unusedSimpArgs false
-set_option linter.unusedVariables false
+/-
+  C08 — type following yields the declared types: the soundness theorem.
 
-/-! ## what the follower does to the tree: call nodes are rewritten, everything else keeps its shape -/
-
-mutual
-def Sim : Expr → Expr → Prop
-  | .name x, e' => e' = .name x
-  | .const c, e' => e' = .const c
-  | .lam ps b, e' => e' = .lam ps b
-  | .attr v a, e' => ∃ v', e' = .attr v' a ∧ Sim v v'
-  | .sub v s, e' => ∃ v' s', e' = .sub v' s' ∧ Sim v v' ∧ Sim s s'
-  | .tuple es, e' => ∃ es', e' = .tuple es' ∧ SimL es es'
-  | .list es, e' => ∃ es', e' = .list es' ∧ SimL es es'
-  | .dict ks vs, e' => ∃ ks' vs', e' = .dict ks' vs' ∧ SimL ks ks' ∧ SimL vs vs'
-  | .op k es, e' => ∃ es', e' = .op k es' ∧ SimL es es'
-  | .comp _ _ _ _ _ _, e' => ∃ k a b c d f, e' = .comp k a b c d f
-  | .call _ _ _ _, e' => ∃ f a kn kv, e' = .call f a kn kv
-def SimL : List Expr → List Expr → Prop
-  | [], es' => es' = []
-  | e :: es, es' => ∃ e' rest, es' = e' :: rest ∧ Sim e e' ∧ SimL es rest
-end
-
-theorem SimL_length : ∀ (es es' : List Expr), SimL es es' → es'.length = es.length
-  | [], es', h => by simp [SimL] at h; simp [h]
-  | e :: es, es', h => by
-    simp only [SimL] at h
-    obtain ⟨e', rest, rfl, _, h2⟩ := h
-    simp [SimL_length es rest h2]
-
-mutual
-theorem Sim_literalEval : ∀ (e e' : Expr), Sim e e' → literalEval e' = literalEval e
-  | .name x, e', h => by simp only [Sim] at h; rw [h]
-  | .const c, e', h => by simp only [Sim] at h; rw [h]
-  | .lam ps b, e', h => by simp only [Sim] at h; rw [h]
-  | .attr v a, e', h => by
-    simp only [Sim] at h; obtain ⟨v', rfl, _⟩ := h; simp [literalEval]
-  | .sub v s, e', h => by
-    simp only [Sim] at h; obtain ⟨v', s', rfl, _, _⟩ := h; simp [literalEval]
-  | .tuple es, e', h => by
-    simp only [Sim] at h; obtain ⟨es', rfl, h⟩ := h
-    simp only [literalEval, SimL_literalEvalL es es' h]
-  | .list es, e', h => by
-    simp only [Sim] at h; obtain ⟨es', rfl, h⟩ := h
-    simp only [literalEval, SimL_literalEvalL es es' h]
-  | .dict ks vs, e', h => by
-    simp only [Sim] at h; obtain ⟨ks', vs', rfl, h1, h2⟩ := h
-    simp only [literalEval, SimL_literalEvalL ks ks' h1, SimL_literalEvalL vs vs' h2]
-  | .op k es, e', h => by
-    simp only [Sim] at h; obtain ⟨es', rfl, h⟩ := h
-    cases k with
-    | un n =>
-      cases es with
-      | nil => simp only [SimL] at h; subst h; rfl
-      | cons a rest =>
-        simp only [SimL] at h
-        obtain ⟨a', rest', rfl, ha, hr⟩ := h
-        cases rest with
-        | nil =>
-          simp only [SimL] at hr; subst hr
-          simp only [literalEval, Sim_literalEval a a' ha]
-        | cons b rest2 =>
-          simp only [SimL] at hr
-          obtain ⟨b', rest2', rfl, _, _⟩ := hr
-          simp [literalEval]
-    | _ => simp [literalEval]
-  | .comp _ _ _ _ _ _, e', h => by
-    simp only [Sim] at h; obtain ⟨k, a, b, c, d, f, rfl⟩ := h; simp [literalEval]
-  | .call _ _ _ _, e', h => by
-    simp only [Sim] at h; obtain ⟨f, a, kn, kv, rfl⟩ := h; simp [literalEval]
-theorem SimL_literalEvalL : ∀ (es es' : List Expr), SimL es es' → literalEvalL es' = literalEvalL es
-  | [], es', h => by simp only [SimL] at h; rw [h]
-  | e :: es, es', h => by
-    simp only [SimL] at h
-    obtain ⟨e', rest, rfl, h1, h2⟩ := h
-    simp only [literalEvalL, Sim_literalEval e e' h1, SimL_literalEvalL es rest h2]
-end
-
-theorem SimL_mapM_litKey : ∀ (es es' : List Expr), SimL es es' → es'.mapM litKey = es.mapM litKey
-  | [], es', h => by simp only [SimL] at h; rw [h]
-  | e :: es, es', h => by
-    simp only [SimL] at h
-    obtain ⟨e', rest, rfl, h1, h2⟩ := h
-    simp only [List.mapM_cons, litKey, Sim_literalEval e e' h1]
-    have := SimL_mapM_litKey es rest h2
-    simp only [litKey] at this
-    rw [this]
-
-theorem Sim_const_iff {e e' : Expr} (h : Sim e e') (c : Const) : e' = .const c ↔ e = .const c := by
-  cases e <;> simp only [Sim] at h
-  case const c' => rw [h]
-  all_goals (constructor <;> intro h' <;> first | (subst h'; simp_all) | (obtain ⟨_, h, _⟩ := h; simp_all) | simp_all)
-
-theorem SimL_dictLitIndex (k : String) : ∀ (es es' : List Expr) (i : Nat), SimL es es' →
-    dictLitIndex k es' i = dictLitIndex k es i
-  | [], es', i, h => by simp only [SimL] at h; rw [h]
-  | e :: es, es', i, h => by
-    simp only [SimL] at h
-    obtain ⟨e', rest, rfl, h1, h2⟩ := h
-    cases e with
-    | const c =>
-      simp only [Sim] at h1; subst h1
-      simp only [dictLitIndex]
-      cases c <;> simp only [SimL_dictLitIndex k es rest (i + 1) h2]
-    | name x => simp only [Sim] at h1; subst h1; rfl
-    | lam ps b => simp only [Sim] at h1; subst h1; rfl
-    | attr v a => simp only [Sim] at h1; obtain ⟨_, rfl, _⟩ := h1; rfl
-    | sub v s => simp only [Sim] at h1; obtain ⟨_, _, rfl, _⟩ := h1; rfl
-    | tuple l => simp only [Sim] at h1; obtain ⟨_, rfl, _⟩ := h1; rfl
-    | list l => simp only [Sim] at h1; obtain ⟨_, rfl, _⟩ := h1; rfl
-    | dict l1 l2 => simp only [Sim] at h1; obtain ⟨_, _, rfl, _⟩ := h1; rfl
-    | op k l => simp only [Sim] at h1; obtain ⟨_, rfl, _⟩ := h1; rfl
-    | comp a b c d e f => simp only [Sim] at h1; obtain ⟨_, _, _, _, _, _, rfl⟩ := h1; rfl
-    | call a b c d => simp only [Sim] at h1; obtain ⟨_, _, _, _, rfl⟩ := h1; rfl
-
-end Fadl
-namespace Fadl
-set_option linter.unusedSimpArgs false
-set_option linter.unusedVariables false
-
-/-! ## filling in defaults does not look at the arguments -/
-
-def ERel {α β : Type} (R : α → β → Prop) : Except Err α → Except Err β → Prop
-  | .ok a, .ok b => R a b
-  | .error x, .error y => x = y
-  | _, _ => False
-
-theorem SimL_append : ∀ (as as' bs bs' : List Expr), SimL as as' → SimL bs bs' → SimL (as ++ bs) (as' ++ bs')
-  | [], as', bs, bs', h1, h2 => by simp only [SimL] at h1; subst h1; simpa using h2
-  | a :: as, as', bs, bs', h1, h2 => by
-    simp only [SimL] at h1
-    obtain ⟨a', rest, rfl, ha, hr⟩ := h1
-    simp only [List.cons_append, SimL]
-    exact ⟨a', rest ++ bs', rfl, ha, SimL_append as rest bs bs' hr h2⟩
-
-theorem SimL_single {e e' : Expr} (h : Sim e e') : SimL [e] [e'] := by
-  simp only [SimL]; exact ⟨e', [], rfl, h, rfl⟩
-
-theorem Sim_refl_const (c : Const) : Sim (.const c) (.const c) := by simp [Sim]
-
-def FKRel : Option (Expr × List String × List Expr) → Option (Expr × List String × List Expr) → Prop
-  | Option.none, Option.none => True
-  | some (e, ks, vs), some (e', ks', vs') => Sim e e' ∧ ks = ks' ∧ SimL vs vs'
-  | _, _ => False
-
-theorem SimL_findKeyword (n : String) : ∀ (kwn : List String) (kwv kwv' : List Expr), SimL kwv kwv' →
-    FKRel (findKeyword n kwn kwv) (findKeyword n kwn kwv')
-  | [], kwv, kwv', h => by cases kwv <;> cases kwv' <;> simp [findKeyword, FKRel]
-  | k :: ks, [], kwv', h => by simp only [SimL] at h; subst h; simp [findKeyword, FKRel]
-  | k :: ks, v :: vs, kwv', h => by
-    simp only [SimL] at h
-    obtain ⟨v', vs', rfl, hv, hr⟩ := h
-    simp only [findKeyword]
-    split
-    · exact ⟨hv, rfl, hr⟩
-    · have ih := SimL_findKeyword n ks vs vs' hr
-      cases h1 : findKeyword n ks vs with
-      | none =>
-        cases h2 : findKeyword n ks vs' with
-        | none => simp [FKRel]
-        | some r => rw [h1, h2] at ih; simp [FKRel] at ih
-      | some r =>
-        obtain ⟨e, ks1, vs1⟩ := r
-        cases h2 : findKeyword n ks vs' with
-        | none => rw [h1, h2] at ih; simp [FKRel] at ih
-        | some r' =>
-          obtain ⟨e', ks1', vs1'⟩ := r'
-          rw [h1, h2] at ih
-          simp only [FKRel] at ih ⊢
-          obtain ⟨a, b, c⟩ := ih
-          refine ⟨a, by rw [b], ?_⟩
-          simp only [SimL]
-          exact ⟨v', vs1', rfl, hv, c⟩
-
-def FLRel : (List Expr × List String × List Expr) → (List Expr × List String × List Expr) → Prop
-  | (a, kn, kv), (a', kn', kv') => SimL a a' ∧ kn = kn' ∧ SimL kv kv'
-
-theorem SimL_fillLoop : ∀ (ps : List Param) (i : Nat) (args args' : List Expr) (kwn : List String) (kwv kwv' : List Expr),
-    SimL args args' → SimL kwv kwv' → ERel FLRel (fillLoop ps i args kwn kwv) (fillLoop ps i args' kwn kwv')
-  | [], i, args, args', kwn, kwv, kwv', h1, h2 => by simp only [fillLoop, ERel, FLRel]; exact ⟨h1, by simp, h2⟩
-  | p :: ps, i, args, args', kwn, kwv, kwv', h1, h2 => by
-    simp only [fillLoop, SimL_length args args' h1]
-    split
-    · have hk := SimL_findKeyword p.name kwn kwv kwv' h2
-      cases h3 : findKeyword p.name kwn kwv with
-      | none =>
-        cases h4 : findKeyword p.name kwn kwv' with
-        | some r => rw [h3, h4] at hk; simp [FKRel] at hk
-        | none =>
-          simp only []
-          cases p.dflt with
-          | none => simp [ERel]
-          | some c =>
-            simp only []
-            exact SimL_fillLoop ps (i + 1) _ _ kwn kwv kwv' (SimL_append _ _ _ _ h1 (SimL_single (Sim_refl_const c))) h2
-      | some r =>
-        obtain ⟨e, ks1, vs1⟩ := r
-        cases h4 : findKeyword p.name kwn kwv' with
-        | none => rw [h3, h4] at hk; simp [FKRel] at hk
-        | some r' =>
-          obtain ⟨e', ks1', vs1'⟩ := r'
-          rw [h3, h4] at hk
-          simp only [FKRel] at hk
-          obtain ⟨a, b, c⟩ := hk
-          subst b
-          simp only []
-          exact SimL_fillLoop ps (i + 1) _ _ ks1 vs1 vs1' (SimL_append _ _ _ _ h1 (SimL_single a)) c
-    · exact SimL_fillLoop ps (i + 1) args args' kwn kwv kwv' h1 h2
-
-/-- a filled call and the same call filled from the rewritten arguments -/
-def CallSim (c c' : Expr) : Prop :=
-  ∃ f f' fa fa' kn kv kv', c = .call f fa kn kv ∧ c' = .call f' fa' kn kv' ∧ SimL fa fa' ∧ SimL kv kv'
-
-theorem Sim_fillDefaults (ps : List Param) (f f' : Expr) (args args' : List Expr) (kwn : List String) (kwv kwv' : List Expr)
-    (h1 : SimL args args') (h2 : SimL kwv kwv') :
-    ERel CallSim (fillDefaults ps f args kwn kwv) (fillDefaults ps f' args' kwn kwv') := by
-  simp only [fillDefaults]
-  have h := SimL_fillLoop (ps.filter (fun p => p.name != "known_types")) 0 args args' kwn kwv kwv' h1 h2
-  cases h3 : fillLoop (ps.filter (fun p => p.name != "known_types")) 0 args kwn kwv with
-  | error x =>
-    cases h4 : fillLoop (ps.filter (fun p => p.name != "known_types")) 0 args' kwn kwv' with
-    | error y => rw [h3, h4] at h; simp only [ERel] at h; subst h; simp [bind, Except.bind, ERel]
-    | ok r => rw [h3, h4] at h; simp [ERel] at h
-  | ok r =>
-    obtain ⟨a, kn, kv⟩ := r
-    cases h4 : fillLoop (ps.filter (fun p => p.name != "known_types")) 0 args' kwn kwv' with
-    | error y => rw [h3, h4] at h; simp [ERel] at h
-    | ok r' =>
-      obtain ⟨a', kn', kv'⟩ := r'
-      rw [h3, h4] at h
-      simp only [ERel, FLRel] at h
-      obtain ⟨ha, hk, hv⟩ := h
-      subst hk
-      simp only [bind, Except.bind, SimL_length a a' ha, SimL_length args args' h1]
-      split
-      · simp only [pure, Except.pure, ERel, CallSim]
-        exact ⟨f, f', a, a', kn, kv, kv', rfl, rfl, ha, hv⟩
-      · simp only [pure, Except.pure, ERel, CallSim]
-        exact ⟨f, f', args, args', kwn, kwv, kwv', rfl, rfl, h1, h2⟩
-
-theorem Sim_isLam {e e' : Expr} (h : Sim e e') : isLamArg e' = isLamArg e := by
-  cases e <;> simp only [Sim] at h
-  case lam ps b => rw [h]
-  case name x => rw [h]
-  case const c => rw [h]
-  case attr => obtain ⟨_, rfl, _⟩ := h; rfl
-  case sub => obtain ⟨_, _, rfl, _⟩ := h; rfl
-  case tuple => obtain ⟨_, rfl, _⟩ := h; rfl
-  case list => obtain ⟨_, rfl, _⟩ := h; rfl
-  case dict => obtain ⟨_, _, rfl, _⟩ := h; rfl
-  case op => obtain ⟨_, rfl, _⟩ := h; rfl
-  case comp => obtain ⟨_, _, _, _, _, _, rfl⟩ := h; rfl
-  case call => obtain ⟨_, _, _, _, rfl⟩ := h; rfl
-
-theorem SimL_anyLam : ∀ (es es' : List Expr), SimL es es' → es'.any isLamArg = es.any isLamArg
-  | [], es', h => by simp only [SimL] at h; rw [h]
-  | e :: es, es', h => by
-    simp only [SimL] at h
-    obtain ⟨e', rest, rfl, h1, h2⟩ := h
-    simp only [List.any_cons, Sim_isLam h1, SimL_anyLam es rest h2]
-
-end Fadl
-namespace Fadl
-set_option linter.unusedSimpArgs false
-set_option linter.unusedVariables false
-
-/-! ## shape inversion for `Sim` -/
-
-theorem Sim_dict_inv {v e' : Expr} {ks' vs' : List Expr} (h : Sim v e') (he : e' = .dict ks' vs') :
-    ∃ ks vs, v = .dict ks vs ∧ SimL ks ks' ∧ SimL vs vs' := by
-  subst he
-  cases v <;> simp only [Sim] at h
-  case dict ks vs => obtain ⟨a, b, hh, h1, h2⟩ := h; cases hh; exact ⟨ks, vs, rfl, h1, h2⟩
-  all_goals (simp at h)
-
-theorem Sim_not_dict {v e' : Expr} (h : Sim v e') (he : ∀ ks' vs', e' ≠ .dict ks' vs') : ∀ ks vs, v ≠ .dict ks vs := by
-  intro ks vs hv
-  subst hv
-  simp only [Sim] at h
-  obtain ⟨a, b, hh, _⟩ := h
-  exact he a b hh
-
-theorem Sim_tuple_inv {v e' : Expr} {es' : List Expr} (h : Sim v e') (he : e' = .tuple es') :
-    ∃ es, v = .tuple es ∧ SimL es es' := by
-  subst he
-  cases v <;> simp only [Sim] at h
-  case tuple es => obtain ⟨a, hh, h1⟩ := h; cases hh; exact ⟨es, rfl, h1⟩
-  all_goals (simp at h)
-
-theorem Sim_not_tuple {v e' : Expr} (h : Sim v e') (he : ∀ es', e' ≠ .tuple es') : ∀ es, v ≠ .tuple es := by
-  intro es hv
-  subst hv
-  simp only [Sim] at h
-  obtain ⟨a, hh, _⟩ := h
-  exact he a hh
-
-theorem Sim_const_inv {v e' : Expr} {c : Const} (h : Sim v e') (he : e' = .const c) : v = .const c := by
-  subst he
-  cases v <;> simp only [Sim] at h
-  case const c' => cases h; rfl
-  all_goals (simp at h)
-
-theorem Sim_lam_inv {v e' : Expr} {ps : List String} {b : Expr} (h : Sim v e') (he : e' = .lam ps b) : v = .lam ps b := by
-  subst he
-  cases v <;> simp only [Sim] at h
-  case lam ps' b' => cases h; rfl
-  all_goals (simp at h)
-
-theorem SimL_single_lam_inv {fa : List Expr} {ps : List String} {b : Expr} (h : SimL fa [.lam ps b]) : fa = [.lam ps b] := by
-  cases fa with
-  | nil => simp [SimL] at h
-  | cons e rest =>
-    simp only [SimL] at h
-    obtain ⟨e', rest', heq, h1, h2⟩ := h
-    simp only [List.cons.injEq] at heq
-    obtain ⟨rfl, rfl⟩ := heq
-    cases rest with
-    | nil => rw [Sim_lam_inv h1 rfl]
-    | cons a r => simp [SimL] at h2
-
-theorem SimL_of_single_lam {fa' : List Expr} {ps : List String} {b : Expr} (h : SimL [.lam ps b] fa') : fa' = [.lam ps b] := by
-  simp only [SimL, Sim] at h
-  obtain ⟨e', rest, rfl, rfl, rfl⟩ := h
-  rfl
-
-theorem Sim_of_const {c : Const} {e' : Expr} (h : Sim (.const c) e') : e' = .const c := by simpa [Sim] using h
-
-theorem SimL_getElem?_isSome {es es' : List Expr} (h : SimL es es') (i : Nat) : (es'[i]?).isSome = (es[i]?).isSome := by
-  have hl := SimL_length es es' h
-  by_cases hi : i < es.length
-  · have hi' : i < es'.length := by omega
-    simp [List.getElem?_eq_getElem hi, List.getElem?_eq_getElem hi']
-  · have h1 : es.length ≤ i := by omega
-    have h2 : es'.length ≤ i := by omega
-    simp [List.getElem?_eq_none h1, List.getElem?_eq_none h2]
-
-def tinfo (r : FRes) : TInfo := ⟨r.ty, r.elts⟩
-
-end Fadl
+  `tyOf` (Model/TypeSpec.lean) computes the type of an expression from the declarations of the class model alone: no
+  stream state, no callback, no tree rewriting, no default values.  `follow_tySound` proves, by induction over the fuel
+  through all five mutually recursive functions of the follower model (follow, followL, methodCall, candLoop,
+  onStreamObj), that whenever the follower accepts an expression the type it reports is the one `tyOf` gives to the
+  expression the user wrote, and that the tree it returns differs from the input only in call nodes (`Sim`).
+  Corollaries: `follow_type_is_declared`, `streamOp_type_is_declared` (Select gives the body's declared type,
+  SelectMany its element type, Where keeps the item type and only accepts a boolean filter), and
+  `follow_type_independent_of_state`.
+-/
+import Fadl.Lemmas.FollowSim
 namespace Fadl
 set_option linter.unusedSimpArgs false
 set_option linter.unusedVariables false
@@ -902,5 +574,82 @@ theorem follow_tySound (M : Model) : ∀ fuel, TySound M fuel := by
           have := SimL_of_single_lam hfa; subst this
           exact absurd rfl (hneg _ _ _ _ _ _ _ rfl)
         · rfl
+
+/-- **C08 (lambda bodies)**: whenever the follower accepts an expression, the type it reports is the declared type of the
+    expression the user wrote — for every class model, environment, stream state and fuel. -/
+theorem follow_type_is_declared (M : Model) (fuel : Nat) (G : Gamma) (st : FSt) (e : Expr) (r : FRes)
+    (h : follow M fuel G st e = .ok r) : tyOf M fuel G e = .ok ⟨r.ty, r.elts⟩ :=
+  ((follow_tySound M fuel).1 G st e r h).1
+
+/-- the follower rewrites call nodes only -/
+theorem follow_rewrites_calls_only (M : Model) (fuel : Nat) (G : Gamma) (st : FSt) (e : Expr) (r : FRes)
+    (h : follow M fuel G st e = .ok r) : Sim e r.e :=
+  ((follow_tySound M fuel).1 G st e r h).2
+
+/-- **C08 (streams)**: whenever Select / SelectMany / Where accept a lambda, the item type of the derived stream is the
+    declared one: the body's declared type for Select, its element type for SelectMany, the unchanged item type for a
+    Where whose filter is declared boolean. -/
+theorem streamOp_type_is_declared (M : Model) (op : String) (itemTy : Ty) (x : String) (body lam' : Expr) (t : Ty) (st : FSt)
+    (h : streamOp M op itemTy (.lam [x] body) = .ok (lam', t, st)) : streamOpTy M op itemTy x body = .ok t := by
+  simp only [streamOp] at h
+  replace h := bindE_ok h
+  obtain ⟨rb, hrb, h⟩ := h
+  replace h := bindE_ok h
+  obtain ⟨u, hu, h⟩ := h
+  have ht := follow_type_is_declared M _ _ _ body rb hrb
+  simp only [streamOpTy, ht, bind, Except.bind]
+  split at h
+  · rename_i hw
+    simp only [hw, if_true]
+    split at h
+    · rename_i hb
+      simp only [hb, if_true]
+      simp only [pure, Except.pure, Except.ok.injEq, Prod.mk.injEq] at h
+      obtain ⟨_, rfl, _⟩ := h; rfl
+    · cases h
+  · rename_i hw
+    simp only [hw, if_false]
+    split at h
+    · rename_i hs
+      simp only [hs, if_true]
+      simp only [pure, Except.pure, Except.ok.injEq, Prod.mk.injEq] at h
+      obtain ⟨_, rfl, _⟩ := h; rfl
+    · rename_i hs
+      simp only [hs, if_false]
+      simp only [pure, Except.pure, Except.ok.injEq, Prod.mk.injEq] at h
+      obtain ⟨_, rfl, _⟩ := h; rfl
+
+/-- the type does not depend on the stream state the follower starts from -/
+theorem follow_type_independent_of_state (M : Model) (fuel : Nat) (G : Gamma) (st st' : FSt) (e : Expr) (r r' : FRes)
+    (h : follow M fuel G st e = .ok r) (h' : follow M fuel G st' e = .ok r') : r'.ty = r.ty := by
+  have a := follow_type_is_declared M fuel G st e r h
+  have b := follow_type_is_declared M fuel G st' e r' h'
+  rw [a] at b
+  simp only [Except.ok.injEq, TInfo.mk.injEq] at b
+  exact b.1.symm
+
+
+/-! Non-vacuity: a class model with a collection operator, a default to fill in and a renaming callback; the follower
+    accepts `e.jets().Select(lambda j: j.pt())`, rewrites the inner call to `j.pt_cal(1.0)` and reports
+    `Iterable[float]`, which is what the declarations give. -/
+private def exM : Model := { funcs := [], classes := [
+   { name := "ObjectStreamInternalMethods", tparams := ["StreamItem"], base := some (.cls "ObjectStream" [.tvar "StreamItem"]),
+     methods := [⟨"First", [], some (.tvar "StreamItem"), Option.none⟩, ⟨"Count", [], some .int, Option.none⟩],
+     props := [], classCb := Option.none, collection := true },
+   { name := "ObjectStream", tparams := ["T"], base := Option.none,
+     methods := [⟨"Select", [⟨"f", Option.none⟩], some (.cls "ObjectStream" [.tvar "S"]), Option.none⟩,
+                 ⟨"Where", [⟨"filter", Option.none⟩], some (.cls "ObjectStream" [.tvar "T"]), Option.none⟩],
+     props := [], classCb := Option.none, collection := false },
+   { name := "Jet", tparams := [], base := Option.none,
+     methods := [⟨"pt", [⟨"scale", some (.float "1.0")⟩], some .float, some ⟨"Jet.pt", Option.none, some "pt_cal", Option.none⟩⟩],
+     props := [], classCb := Option.none, collection := false },
+   { name := "Evt", tparams := [], base := Option.none,
+     methods := [⟨"jets", [], some (.iterable (.cls "Jet" [])), Option.none⟩],
+     props := [], classCb := Option.none, collection := false }] }
+private def exE : Expr := .call (.attr (.call (.attr (.name "e") "jets") [] [] []) "Select") [.lam ["j"] (.call (.attr (.name "j") "pt") [] [] [])] [] []
+example : (follow exM 40 [("e", .cls "Evt" [])] ⟨[], []⟩ exE).toOption.map (fun r => Ty.beq r.ty (.iterable .float)) = some true := by
+  decide
+example : (tyOf exM 40 [("e", .cls "Evt" [])] exE).toOption.map (fun r => Ty.beq r.ty (.iterable .float)) = some true := by
+  decide
 
 end Fadl
